@@ -345,6 +345,42 @@ def axis_grid(ck, qr, numpy):
                                           specified=want),
                                      dict(rp, value=v))
     ck.traces_validated += len(rows)
+    # the same axes with steps that are not exactly representable (the table
+    # is invariant under a common scale): every grid point is located at its
+    # own index, every midpoint at the index below it
+    for f in (0.45, 0.85, 1.0 / 3.0):
+        for cls in (ValueAxis, qr.TimeAxis):
+            for r in rows:
+                a = r["axis"]
+                ax = cls(a["start"] * f, a["len"], a["step"] * f)
+                dd = numpy.array(ax.data)
+                rp = dict(kind="axis-scaled", cls=cls.__name__, axis=a,
+                          scale=f)
+                with ck.guarded("locate-nearest", cls.__name__ + ":scaled",
+                                rp, rp):
+                    bad = None
+                    for k in range(a["len"]):
+                        lk = int(ax.locate(float(dd[k]))[0])
+                        nk = int(ax.nearest(float(dd[k])))
+                        if lk != k or nk != k:
+                            bad = dict(index=k, value=float(dd[k]),
+                                       located=lk, nearest=nk)
+                            break
+                        if k + 1 < a["len"]:
+                            mid = float((dd[k] + dd[k + 1]) / 2)
+                            lm = int(ax.locate(mid)[0])
+                            if lm != k:
+                                bad = dict(index=k, value=mid, located=lm,
+                                           midpoint=True)
+                                break
+                    ck.case("locate-nearest", (cls.__name__, "scaled", f,
+                                               a["start"], a["len"],
+                                               a["step"]))
+                    if bad:
+                        ck.violation("locate-nearest",
+                                     cls.__name__ + ":grid-point-of-a-"
+                                     "non-representable-step",
+                                     dict(rp, **bad), rp)
 
 
 def _imat(a):
